@@ -7,7 +7,9 @@ from concurrent.futures import ThreadPoolExecutor
 
 import vcommon as vc
 
-CAT = {"lvalue": "lv", "const": "const", "rvalue": "rv"}
+CAT = {"lvalue": "lv", "const": "const", "rvalue": "rv", "crvalue": "crv"}
+CATNAME = {"lv": "lvalue", "const": "const", "rv": "temporary", "crv": "const temporary"}
+CATSPEC = {v: k for k, v in CAT.items()}
 AD = {"enumerate": "en", "reverse": "re"}
 KINDS = ["vec", "arr", "list", "map", "fv", "carr", "ilist"]
 KINDNAME = dict(vec="std::vector", arr="std::array", list="std::list", map="std::map", fv="nitro::lang::fixed_vector", carr="built-in array", ilist="initializer list")
@@ -35,7 +37,7 @@ def run(chk, replay_path):
             first = [l for l in err.splitlines() if "error" in l][:1]
             k, c, a = i.split("_")
             chk.diverge("Begin", "not_compiling", dict(id=i), "%s over a %s %s no longer compiles: %s" % (
-                {"en": "enumerate", "re": "reverse"}[a], {"lv": "lvalue", "const": "const", "rv": "temporary"}[c], KINDNAME[k], first[0][:300] if first else ""))
+                {"en": "enumerate", "re": "reverse"}[a], CATNAME[c], KINDNAME[k], first[0][:300] if first else ""))
     exe = vc.build_driver("ranges_driver", ["ranges_driver.cpp"], flags=["-DHAVE_" + i for i in now])
     r = vc.run_tlc("ranges/Ranges", "ranges/MC_Ranges.cfg", timeout=900)
     chk.add_tlc("Ranges", r)
@@ -48,8 +50,8 @@ def run(chk, replay_path):
     for sc in spec_cases:
         for k in KINDS:
             i = "%s_%s_%s" % (k, CAT[sc["cat"]], AD[sc["adaptor"]])
-            if i not in now or (k == "carr" and sc["n"] == 0):
-                continue
+            if i not in now or (k == "carr" and sc["n"] == 0) or (sc["cat"] == "crvalue" and sc["handoff"] == "assign"):
+                continue        # a range over a const temporary may have a const member: assignability is not required
             dcs.append((sc, dict(id=i, n=sc["n"], write=sc["write"], handoff=sc["handoff"])))
     if replay_path:
         d = json.load(open(replay_path))
@@ -78,7 +80,7 @@ def run(chk, replay_path):
             chk.diverge("LoopEnd", "leak", d, "%s: %d element objects left" % (what, o["leaked"]))
     chk.replayed += len(dcs)
     chk.notes.append("%d of %d combinations offered; %d spec cases x kinds replayed" % (len(now), len(ids), len(dcs)))
-    chk.bounds["model"] = "adaptor x category x lengths 0..4 x writing or not; kinds: vector, array, list, map, fixed_vector, built-in array, initializer list"
+    chk.bounds["model"] = "adaptor x category (lvalue, const, temporary, const temporary) x lengths 0..4 x writing or not x hand-off (direct, copy, move, assign); kinds: vector, array, list, map, fixed_vector, built-in array, initializer list"
     chk.sample(dict(kind="spec->code case", case=dcs[len(dcs) // 2][1], expected=dcs[len(dcs) // 2][0]["visited"]))
     # code -> spec: longer ranges for the kinds that allow them
     rng = random.Random("%s/C20" % chk.seed)
@@ -89,12 +91,12 @@ def run(chk, replay_path):
         n = rng.randint(0, 4) if k in ("arr", "carr", "ilist") else rng.choice([0, 1, 2, 5, 17, 60])
         if k == "carr":
             n = max(1, n)
-        rc.append(dict(id=i, n=n, write=(c == "lv" and rng.random() < 0.5), handoff=rng.choice(["direct", "direct", "copy", "move", "assign"])))
+        rc.append(dict(id=i, n=n, write=(c == "lv" and rng.random() < 0.5), handoff=rng.choice(["direct", "direct", "copy", "move"] + ([] if c == "crv" else ["assign"]))))
     robs = vc.run_cases(exe, rc, chk.out, "record", per_case_timeout=10)
     execs = []
     for d, o in zip(rc, robs):
         k, c, a = d["id"].split("_")
-        execs.append([dict(e="Loop", adaptor={"en": "enumerate", "re": "reverse"}[a], cat={"lv": "lvalue", "const": "const", "rv": "rvalue"}[c], n=d["n"], write=d["write"], handoff=d["handoff"],
+        execs.append([dict(e="Loop", adaptor={"en": "enumerate", "re": "reverse"}[a], cat=CATSPEC[c], n=d["n"], write=d["write"], handoff=d["handoff"],
                            outcome=str(o.get("outcome")), visited=o.get("visited", []), after=o.get("after", []), bad=o.get("bad", 0), leaked=o.get("leaked", 0))])
     rej, st = vc.validate_trace("ranges/RangesTrace", "ranges/RangesTrace.cfg", execs, chk.out, "trace", batch=3000)
     chk.states += st["states"]
@@ -105,4 +107,4 @@ def run(chk, replay_path):
         chk.diverge("Deref", "trace-rejected" if ev["outcome"] == "ok" else ev["outcome"], rc[k],
                     "recorded loop rejected by RangesTrace (%s): %s -> visited %s after %s bad=%s" % (why, json.dumps(rc[k]), [(x["idx"], x["val"]) for x in ev["visited"]][:12], ev["after"][:12], ev["bad"]), artefact=path)
     chk.assumptions += ["elements are registry-instrumented integers: reading a destroyed element is counted as a dangling access (ASan as backstop)",
-                        "the set of combinations the library offers is recorded in spec/ranges/offered.json (all 36 on the unchanged tree)"]
+                        "the set of combinations the library offers is recorded in spec/ranges/offered.json (all 46 on the unchanged tree)"]
